@@ -24,7 +24,16 @@ var kindAspects = map[string][]string{
 }
 
 // liveKinds produce a diff that provisioning classifies as live-eligible.
-var liveKinds = map[string]bool{"proc-settings": true, "proc-settings-2": true, "name": true, "desc": true, "name+proc-settings": true}
+var liveKinds = map[string]bool{"proc-settings": true, "proc-settings-2": true, "name": true, "desc": true, "name+proc-settings": true,
+	"proc-plugin-missing": true, "proc-settings+plugin-missing": true}
+
+// c13Kinds: processor-only (live-eligible) changes used by the C13 part of this package. The two
+// "plugin-missing" kinds ask for a processor plugin that cannot be dispensed: the replacement can
+// not even be built (kind only generated in C13 mode, it is not in changeKinds).
+var c13Kinds = []string{"proc-settings", "proc-settings", "proc-settings-2", "name+proc-settings", "proc-plugin-missing", "proc-plugin-missing", "proc-settings+plugin-missing"}
+
+// MissingPlugin is a processor plugin name no registry of the lab knows.
+const MissingPlugin = "lab-no-such-processor-plugin"
 
 func kindLabel(kinds []string) string {
 	if len(kinds) == 0 {
@@ -35,9 +44,9 @@ func kindLabel(kinds []string) string {
 
 func needsProc(kind string) int {
 	switch kind {
-	case "proc-settings", "proc-workers", "proc-remove", "name+proc-settings", "proc+conn-settings":
+	case "proc-settings", "proc-workers", "proc-remove", "name+proc-settings", "proc+conn-settings", "proc-plugin-missing":
 		return 1
-	case "proc-settings-2":
+	case "proc-settings-2", "proc-settings+plugin-missing":
 		return 2
 	}
 	return 0
@@ -67,6 +76,21 @@ func applyKind(t *rapid.T, base pipeM, kind string) (pipeM, []procRef) {
 		bump(1)
 	case "proc-settings-2":
 		bump(2)
+	case "proc-plugin-missing", "proc-settings+plugin-missing":
+		// one processor gets a plugin that cannot be dispensed (and new settings); in the second
+		// kind another processor gets ordinary new settings in the same apply
+		n := 1
+		if kind == "proc-settings+plugin-missing" {
+			n = 2
+		}
+		bump(n)
+		bad := bumped[lab.Uniform(t, "badproc", len(bumped))]
+		for _, r := range m.allProcs() {
+			if r.Parent == bad.Parent && r.P.ID == bad.P.ID {
+				r.P.Plugin = MissingPlugin
+				m.setProc(r.Parent, r.P.ID, r.P)
+			}
+		}
 	case "proc-workers":
 		all := m.allProcs()
 		r := all[lab.Uniform(t, "wproc", len(all))]
@@ -150,6 +174,12 @@ func applyKind(t *rapid.T, base pipeM, kind string) (pipeM, []procRef) {
 type genOpts struct {
 	Known   func(string) bool
 	Exclude func(string)
+	// C13: only the default engine, one authorised apply with a fresh hash of a processor-only
+	// change (c13Kinds); the only scripted failures are "the new processor cannot be opened" and
+	// "the new processor cannot be built"
+	C13 bool
+	// SlowOpen (with C13): an ordinary settings change whose new processor takes 11.5 s to open
+	SlowOpen bool
 }
 
 func keyImportNotAtomic(engine string) string {
@@ -167,6 +197,14 @@ func genCase(t *rapid.T, o genOpts) *c16Case {
 
 	scenario := []string{"single", "single", "single", "seq-stale", "seq-unauth-then-auth", "concurrent-same", "concurrent-same", "concurrent-other"}[lab.Uniform(t, "scenario", 8)]
 	kind := changeKinds[lab.Uniform(t, "kind", len(changeKinds))]
+	if o.C13 {
+		lc.Engine = "v1"
+		scenario = "single"
+		kind = c13Kinds[lab.Uniform(t, "c13kind", len(c13Kinds))]
+		if o.SlowOpen {
+			kind = []string{"proc-settings", "proc-settings-2", "name+proc-settings"}[lab.Uniform(t, "slowkind", 3)]
+		}
+	}
 	if scenario == "concurrent-other" && o.Known != nil && o.Known(keyDataRaceOther) {
 		// known defect D2: the services' instance maps are not synchronised
 		if o.Exclude != nil {
@@ -236,6 +274,9 @@ func genCase(t *rapid.T, o genOpts) *c16Case {
 			main.HashMode = "other"
 		}
 		main.Allow = !lab.Chance(t, "noallow", 25)
+		if o.C13 {
+			main.HashMode, main.Allow = "fresh", true
+		}
 		cs.Reqs = []applyReq{main}
 	case "seq-stale":
 		// A is applied; B presents a hash that was computed before A
@@ -339,10 +380,21 @@ func genCase(t *rapid.T, o genOpts) *c16Case {
 	}
 
 	// ---- scripted failure (only where the first request is expected to try the apply)
+	if o.C13 && o.SlowOpen && len(bumped) > 0 {
+		r := bumped[lab.Uniform(t, "slowproc", len(bumped))]
+		cs.Fault = faultPlan{Kind: "proc-slow-open", Comp: r.full(), Index: r.P.Gen, Ms: 11500}
+		return cs
+	}
 	if (scenario == "single" || scenario == "seq-stale") && cs.Reqs[0].Allow && cs.Reqs[0].HashMode == "fresh" && kind != "none" && lab.Chance(t, "fault", 60) {
 		fk := []string{"set", "set", "commit", "src-open", "src-open", "proc-open", "proc-open", "stop-flush", "stop-flush"}[lab.Uniform(t, "faultkind", 9)]
 		if len(bumped) > 0 && lab.Chance(t, "preferprocopen", 40) {
 			fk = "proc-open"
+		}
+		if o.C13 {
+			fk = "proc-open"
+			if kind == "proc-plugin-missing" || kind == "proc-settings+plugin-missing" {
+				fk = "none" // the missing plugin is the failure
+			}
 		}
 		if fk == "stop-flush" && lc.Engine == "v1" && o.Known != nil && o.Known(keyFlushSwallowed("v1")) {
 			// known defect D3: the failed flush is swallowed by the stop
